@@ -128,6 +128,10 @@ def named():
     add('ann_walrus_call_value', [A(0), ('assign', 'ann', [1], [('callx', [('r', 2), ('r', 3)])]),
                                   ('if', [('w', 4, [('callx', [('r', 5), ('r', 6)])])], [X(7)], [])],
         ties=[[0, 1, 2], [4, 5, 7], [3, 6]])
+    add('method_closure_in_def', [('def', 0, [('arg', 1, None, None)], [], None,
+                                   [('class', 2, [], [], [], [('def', 3, [('arg', 4, None, None)], [], None, [X(5)]),
+                                                              ('call', 6)])]), ('call', 7)],
+        'a method of a class defined inside a function reads a parameter of that function', ties=[[0, 7], [3, 6], [1, 5]])
     add('comp_in_class', [('class', 0, [], [], [], [A(1), ('expr', [('comp', 'list', [([2], R(3), [])], R(4))])])])
     return S
 
